@@ -300,6 +300,9 @@ def replay_file(path):
         obl = rec["obligation"]
         try:
             out = real_call(con, real_args)
+        except (PathAbort, Unsupported) as e:
+            print("REPLAY: the contract harness rejected these inputs (%s): not a witness" % type(e).__name__)
+            return 1
         except Exception as e:
             print("REPLAY: real %s raised %s: %s" % (con.target, type(e).__name__, e))
             if "/total(" in obl:
@@ -437,6 +440,10 @@ def clause_failures(con, c, args, case):
     real_args = {k: to_real(v) for k, v in args.items()}
     try:
         out = real_call(con, real_args)
+    except (PathAbort, Unsupported):
+        # raised by the contract's own harness (a ghost whose assumption does not hold for these
+        # random values), not by the code under test: this input is simply not in the domain
+        return []
     except Exception as e:
         if con.level == "property" and con.total and con.allowed_exception(c, PyExc(type(e).__name__, e.args), **args) is not True:
             return [("total(no %s)" % type(e).__name__, False, None)]
